@@ -52,7 +52,7 @@ Print Assumptions C07_objective.
 (* The hypotheses are met by every graph on which the class's set_depot succeeded at some
    point of a history of add_node / add_arc / set_depot calls on the formulation object. *)
 Theorem C07_hypotheses_reachable : forall st g0 nm g1 ops V L vc,
-  Inv g0 -> seq_set_depot g0 nm = Ok g1 ->
+  Inv g0 -> seq_set_depot st g0 nm = Ok g1 ->
   seq_ok (mkInst (run (Seq st) ops g1) V L vc).
 Proof.
   intros. apply depot_set_seq_ok, run_depot_set. eapply seq_set_depot_depot_set; eauto.
@@ -100,7 +100,9 @@ Proof. exact strict_time. Qed.
 Print Assumptions C07_strict_time.
 
 (* strict_graph is kept by the strict add_arc (a depot self-arc may only be overwritten with a travel
-   time that keeps a waiting vehicle inside the depot window) and by set_depot on the current depot *)
+   time that keeps a waiting vehicle inside the depot window), and the strict set_depot ESTABLISHES it
+   on every well-formed graph whose arcs passed the strict add_arc -- whichever node is chosen: when the
+   depot moves, every stored arc is re-added through the strict add_arc for its new position *)
 Theorem C07_strict_kept : forall g,
   strict_graph g ->
   (forall o d tm c g' b,
@@ -108,15 +110,28 @@ Theorem C07_strict_kept : forall g,
      (index_of o (names g) = Some 0%nat -> index_of d (names g) = Some 0%nat ->
       ext_le (ext_add (nhi (gnode g 0)) tm) (nhi (gnode g 0))) ->
      strict_graph g') /\
-  (forall nm g',
-     windows_ok g -> (0 < length (nodes g))%nat -> index_of nm (names g) = Some 0%nat ->
-     seq_set_depot g nm = Ok g' -> strict_graph g').
+  (forall nm g', Inv g -> seq_set_depot true g nm = Ok g' -> strict_graph g').
 Proof.
   intros g Hst. split.
   - intros. eapply strict_graph_add_arc; eauto.
-  - intros. eapply strict_graph_set_depot_same; eauto.
+  - intros nm g' HI H. apply strict_graph_split in Hst. destruct Hst as [Hc _].
+    eapply strict_graph_seq_set_depot; eauto.
 Qed.
 Print Assumptions C07_strict_kept.
+
+(* strict_graph = the part every strict add_arc checks (strict_core: customer origin: window END +
+   travel time <= destination end; depot origin: window start + travel time <= destination end) + the
+   condition on the arc currently stored under (0,0) (depot_self_ok) *)
+Theorem C07_strict_graph_split : forall g, strict_graph g <-> strict_core g /\ depot_self_ok g.
+Proof. exact strict_graph_split. Qed.
+Print Assumptions C07_strict_graph_split.
+
+(* the strict set_depot also when the depot MOVES (the repaired defect strict/depot-moved-after-arcs):
+   no hypothesis on which node is chosen, none on the depot self-arc *)
+Theorem C07_strict_set_depot_any_node : forall g nm g',
+  Inv g -> strict_core g -> seq_set_depot true g nm = Ok g' -> strict_graph g'.
+Proof. exact strict_graph_seq_set_depot. Qed.
+Print Assumptions C07_strict_set_depot_any_node.
 
 (* strict_graph is established by the strict constructor for every well-formed graph handed to it
    (its arcs are re-filtered; a depot self-arc handed over must keep a waiting vehicle inside the depot
@@ -130,6 +145,36 @@ Theorem C07_strict_kept_add_node : forall g nm dem lo hi g',
   Inv g -> strict_graph g -> add_node g nm dem lo hi = Ok g' -> strict_graph g'.
 Proof. exact strict_graph_add_node. Qed.
 Print Assumptions C07_strict_kept_add_node.
+
+(* EVERY history: a strict object created on any well-formed graph g0 (in particular on the empty one),
+   followed by any finite sequence of add_node / add_arc / set_depot calls -- the depot chosen or moved
+   at any time -- holds a well-formed graph whose arcs satisfy the strict rule for their current
+   positions; it satisfies strict_graph as soon as the arc currently stored under (0,0) keeps a waiting
+   vehicle inside the depot window (always true right after a set_depot, which stores it with travel
+   time 0; false only after add_arc(depot, depot, t) with t > 0 under a finite depot window) *)
+Theorem C07_strict_graph_all_histories : forall g0 g1 ops,
+  Inv g0 -> seq_init true g0 = Ok g1 ->
+  let g := run (Seq true) ops g1 in
+  Inv g /\ strict_core g /\ (depot_self_ok g -> strict_graph g).
+Proof. exact strict_graph_all_histories. Qed.
+Print Assumptions C07_strict_graph_all_histories.
+
+Theorem C07_strict_graph_after_set_depot : forall g0 g1 ops nm g,
+  Inv g0 -> seq_init true g0 = Ok g1 ->
+  seq_set_depot true (run (Seq true) ops g1) nm = Ok g -> strict_graph g.
+Proof. exact strict_graph_after_set_depot. Qed.
+Print Assumptions C07_strict_graph_after_set_depot.
+
+(* ... hence strict timing along every walk for every history (no "depot first" restriction) *)
+Theorem C07_strict_time_all_histories : forall g0 g1 ops V L vc (W : nat -> nat -> nat) (v : nat),
+  Inv g0 -> seq_init true g0 = Ok g1 ->
+  let I := mkInst (run (Seq true) ops g1) V L vc in
+  depot_self_ok (ig I) -> walk_assignment I W -> (v < iV I)%nat ->
+  forall s, (s < iL I)%nat ->
+    nlo (node_at I (W v s)) <= arrival I (W v) s /\
+    ext_le (Fin (arrival I (W v) s)) (nhi (node_at I (W v s))).
+Proof. exact strict_time_all_histories. Qed.
+Print Assumptions C07_strict_time_all_histories.
 
 (* ---------- non-vacuity ---------- *)
 (* strict class; depot D (0, inf), customers A (0,5), B (1,6); arcs D->A, A->B, B->D, A->D, D->B;
@@ -170,33 +215,50 @@ Example C07_example_values :
   map (arrival C07_example (W 0%nat)) (seq 0 4) = [0; 1; 2; 3].
 Proof. vm_compute. repeat split; reflexivity. Qed.
 
-(* FINDING (strict mode, depot chosen after arcs exist): A (0,10), B (0,5), D (0,inf); add_arc(A,B,3)
-   is accepted by the lenient rule because A is node 0 at that moment; set_depot(D) then re-files it
-   as a customer-origin arc.  The walk D-A-B-D is a walk assignment of the resulting instance and
-   reaches B at time 11 > 5: the conclusion of C07_strict_time fails, its hypothesis strict_graph
-   does not hold for this API-reachable instance. *)
+(* REPAIRED (a305445; formerly the finding strict/depot-moved-after-arcs): A (0,10), B (0,5), D (0,inf);
+   add_arc(A,B,3) is accepted by the lenient rule because A is node 0 at that moment; set_depot(D) moves
+   D to the front and now re-adds the stored arcs with the rule for their new positions: A->B
+   (10 + 3 > 5) is dropped.  The history is an instance of C07_strict_graph_all_histories; the walk
+   D-A-B-D, which used to reach B at time 11 > 5, is no longer a walk assignment (A->B is not an arc),
+   and the instance has none (B cannot be reached). *)
 Definition C07_moved_depot : inst :=
   mkInst (run (Seq true)
               [OpAddNode 11 1 0 (Fin 10); OpAddNode 12 1 0 (Fin 5); OpAddNode 10 0 0 PInf;
                OpAddArc 11 12 3 1; OpSetDepot 10; OpAddArc 10 11 8 1; OpAddArc 12 10 0 1] empty_graph)
          1 4 [0].
 
-Theorem C07_strict_time_moved_depot_refuted :
-  seq_ok C07_moved_depot /\ (3 <= iL C07_moved_depot)%nat /\
-  walk_assignment C07_moved_depot (pad_walks [[1; 2]%nat]) /\
-  ~ ext_le (Fin (arrival C07_moved_depot (pad_walks [[1; 2]%nat] 0%nat) 2))
-           (nhi (node_at C07_moved_depot (pad_walks [[1; 2]%nat] 0%nat 2%nat))).
+Example C07_moved_depot_repaired :
+  seq_ok C07_moved_depot /\ strict_graph (ig C07_moved_depot) /\
+  map fst (arcs (ig C07_moved_depot)) = [(0, 0); (0, 1); (2, 0)]%nat /\
+  check_arc C07_moved_depot (1%nat, 2%nat) = false.
 Proof.
-  assert (Hok : seq_ok C07_moved_depot).
+  split.
   { apply depot_set_seq_ok. split; [apply run_inv, Inv_empty|]. vm_compute. auto 10. }
-  split; [exact Hok|]. split; [vm_compute; lia|]. split.
-  - apply pad_walks_assignment; [exact Hok | vm_compute; lia | vm_compute; lia | |].
-    + constructor; [|constructor]. split; [|split].
-      * intros c [<-|[<-|[]]]; vm_compute; lia.
-      * vm_compute. repeat split; auto 10.
-      * vm_compute; lia.
-    + intros n H1 H2. change (iN C07_moved_depot) with 3%nat in H2.
-      destruct n as [|[|[|n]]]; try lia; vm_compute; reflexivity.
-  - intros H. vm_compute in H. apply H. reflexivity.
+  split; [|vm_compute; split; reflexivity].
+  assert (E0 : seq_init true empty_graph = Ok empty_graph) by reflexivity.
+  destruct (C07_strict_graph_all_histories empty_graph empty_graph
+              [OpAddNode 11 1 0 (Fin 10); OpAddNode 12 1 0 (Fin 5); OpAddNode 10 0 0 PInf;
+               OpAddArc 11 12 3 1; OpSetDepot 10; OpAddArc 10 11 8 1; OpAddArc 12 10 0 1] Inv_empty E0)
+    as (_ & _ & H).
+  apply H. intros a Hin. vm_compute in Hin.
+  repeat (destruct Hin as [Hin|Hin]; [inversion Hin; subst; vm_compute; exact I|]). destruct Hin.
 Qed.
-Print Assumptions C07_strict_time_moved_depot_refuted.
+
+(* a moved depot with walks left: D (0,inf) chosen after A->B (tt 1: 10 + 1 > 5 is dropped) and B->A
+   (tt 2: 5 + 2 <= 10 is kept) were stored while A was node 0 *)
+Definition C07_moved_depot2 : inst :=
+  mkInst (run (Seq true)
+              [OpAddNode 11 1 0 (Fin 10); OpAddNode 12 1 0 (Fin 5); OpAddNode 10 0 0 PInf;
+               OpAddArc 11 12 1 1; OpAddArc 12 11 2 1; OpSetDepot 10;
+               OpAddArc 10 12 3 1; OpAddArc 11 10 0 1] empty_graph)
+         1 4 [0].
+
+Example C07_moved_depot_walk :
+  strict_graph (ig C07_moved_depot2) /\ windows_ok (ig C07_moved_depot2) /\
+  map fst (arcs (ig C07_moved_depot2)) = [(2, 1); (0, 0); (0, 2); (1, 0)]%nat /\
+  map (arrival C07_moved_depot2 (pad_walks [[2; 1]%nat] 0%nat)) (seq 0 4) = [0; 3; 5; 5].
+Proof.
+  split; [apply strict_graphb_true; vm_compute; reflexivity|].
+  split; [apply windows_okb_true; vm_compute; reflexivity|].
+  vm_compute. split; reflexivity.
+Qed.
